@@ -20,13 +20,15 @@ EXTENDS Trace_Tree
 VARIABLES meta,     \* acknowledged metadata (sequence of bytes)
           phase,    \* "none" | "live" | "failed" | "closed" | "failedclosed" | "unjudged"
           pend,     \* what the failed operation would have produced: [pre, post, premeta, postmeta]
-          pinit     \* state and metadata just before the first batch initialisation of this live phase
-svars == <<l, t, d, used, meta, phase, pend, pinit>>
+          pinit,    \* state and metadata just before the first batch initialisation of this live phase
+          lastl,    \* line of the last successful flush of the instance that was then dropped (0 = none)
+          retried   \* a call was issued on the live instance after the injected failure (a retry)
+svars == <<l, t, d, used, meta, phase, pend, pinit, lastl, retried>>
 
 NoPend == [pre |-> Empty, post |-> Empty, premeta |-> <<>>, postmeta |-> <<>>]
 NoInit == [on |-> FALSE, t |-> Empty, meta |-> <<>>]
 
-SInit == l = 1 /\ t = Empty /\ d = 0 /\ used = {} /\ meta = <<>> /\ phase = "none" /\ pend = NoPend /\ pinit = NoInit
+SInit == l = 1 /\ t = Empty /\ d = 0 /\ used = {} /\ meta = <<>> /\ phase = "none" /\ pend = NoPend /\ pinit = NoInit /\ lastl = 0 /\ retried = FALSE
 
 ObsMeta(o) == IF "meta" \in DOMAIN o THEN o.meta ELSE <<>>
 MetaAfter(op, m) == IF op.c = "set_meta" THEN op.m ELSE m
@@ -43,6 +45,11 @@ DurOK(o, dd) ==
                 SparseLeaf(o, i) \in {Lf(pend.pre, i), Lf(pend.post, i)}
      ELSE \A i \in 0..(Cap(dd) - 1) : ObsLeaf(o, i) \in {Lf(pend.pre, i), Lf(pend.post, i)}
 
+SameAsBefore(o, b) ==
+  /\ ~Broken(o) /\ ~Broken(b)
+  /\ o.next = b.next /\ o.root = b.root /\ ObsMeta(o) = ObsMeta(b)
+  /\ IF Sparse(o) THEN o.nz = b.nz ELSE o.leaves = b.leaves
+
 OpenOK(e) ==
   IF ~e.existed
   THEN IF e.fired THEN e.res = "err"                       \* a failing creation is reported
@@ -55,7 +62,10 @@ OpenOK(e) ==
               /\ (Prop = "C15" => EmptiesOK(e.obs, t))
          [] phase = "failedclosed" ->
               /\ e.res = "ok"
-              /\ (Prop = "C16" => DurOK(e.obs, e.d))
+              /\ (Prop = "C16" /\ ~retried => DurOK(e.obs, e.d))
+              \* whatever happened before, a SUCCESSFUL flush followed by a reopen yields what the instance
+              \* itself reported before closing (root, leaf count, leaves, metadata)
+              /\ (Prop = "C16" /\ lastl > 0 /\ ~pinit.on => SameAsBefore(e.obs, Rec[lastl].obs))
          [] OTHER -> TRUE                                   \* half-created location etc.: nothing was acknowledged
 
 OpOK(e) ==
@@ -83,9 +93,11 @@ SAdvance(e) ==
                     /\ meta' = ObsMeta(e.obs)
                     /\ phase' = (IF ~e.existed \/ phase = "closed" THEN "live" ELSE "unjudged")
                ELSE t' = Empty /\ meta' = <<>> /\ phase' = "unjudged"
-            /\ pend' = NoPend /\ pinit' = NoInit
+            /\ pend' = NoPend /\ pinit' = NoInit /\ lastl' = 0 /\ retried' = FALSE
        [] e.t = "op" ->
             /\ d' = d
+            /\ lastl' = (IF e.op.c = "flush" /\ e.res = "ok" /\ ~e.fired THEN l ELSE 0)
+            /\ retried' = (retried \/ (phase = "failed" /\ e.op.c # "flush"))
             /\ IF phase = "live" /\ e.fired
                THEN /\ phase' = "failed"
                     /\ pend' = [pre |-> t, post |-> After(t, Expected(e), "ok"),
@@ -99,8 +111,8 @@ SAdvance(e) ==
                             /\ meta' = ObsMeta(e.obs)
        [] e.t = "drop" ->
             /\ phase' = (CASE phase = "live" -> "closed" [] phase = "failed" -> "failedclosed" [] OTHER -> phase)
-            /\ UNCHANGED <<t, d, meta, pend, pinit>>
-       [] OTHER -> UNCHANGED <<t, d, meta, phase, pend, pinit>>
+            /\ UNCHANGED <<t, d, meta, pend, pinit, lastl, retried>>
+       [] OTHER -> UNCHANGED <<t, d, meta, phase, pend, pinit, lastl, retried>>
 
 -----------------------------------------------------------------------------
 \* Known findings of this judge
@@ -117,6 +129,17 @@ SKFPred(name, e) ==
          /\ ~Broken(e.obs) /\ EmptiesSeen(e.obs)
          /\ SeqSet(e.obs.empties) = 0..(e.obs.next - 1)
          /\ \A k \in 1..(Len(e.obs.empties) - 1) : e.obs.empties[k] < e.obs.empties[k + 1]
+    [] name = "pm-next-memory-ahead" ->
+         \* pmtree raises its in-memory leaf count BEFORE persisting it: when exactly that write fails, the
+         \* live instance reports the new count, the flush succeeds, and the reopened tree has the old one
+         /\ Prop = "C16" /\ e.t = "open" /\ e.existed /\ phase = "failedclosed" /\ e.res = "ok" /\ lastl > 0
+         /\ ~Broken(e.obs) /\ ~Broken(Rec[lastl].obs)
+         /\ LET o == e.obs
+                b == Rec[lastl].obs
+            IN /\ o.next = pend.pre.next /\ b.next = pend.post.next /\ pend.pre.next < pend.post.next
+               /\ o.root = b.root /\ ObsMeta(o) = ObsMeta(b)
+               /\ (IF Sparse(o) THEN o.nz = b.nz ELSE o.leaves = b.leaves)
+               /\ (~retried => DurOK(o, e.d))
     [] name = "pm-override-batch" -> e.t = "op" /\ phase = "live" /\ ~e.fired /\ PmOverrideMatches(e)
     [] OTHER -> FALSE
 
